@@ -223,6 +223,10 @@ def analyse(src: Source) -> List[Report]:
         n += 1
     rep.unit("leaves_event_handlers", n)
     check_commit_routine(prog, rep)
+    # the handlers work on copies: a branch handed out by the state handler shares no node with the global state, otherwise the
+    # in-place writes of a handler (time stamps of moving members) reach composite objects that were not committed
+    from .c13 import check_extraction_copies
+    check_extraction_copies(prog, rep)
     # R12.3 also inside the commit routine and everywhere else in the package
     for mi, ci, fn in prog.functions():
         if ci is None or not mi.file.startswith("jellyfysh/event_handler/"):
